@@ -295,7 +295,7 @@ T1_PROPS = {
     # pid: (coq target, blamed clauses, generator profiles, description)
     'C02': dict(target='Properties_C02', clauses=['C02', 'HARNESS', 'CRASH', 'C17'], profiles=['grow', 'churn', 'mixed', 'resize', 'locked', 'workers', 'workers_rebuild']),
     'C05': dict(target='Properties_C05', clauses=['C05'], profiles=['churn', 'resize', 'stream', 'mixed', 'locked', 'special', 'grow', 'stream', 'workers_rebuild']),
-    'C09': dict(target='Properties_C09', clauses=['C09'], profiles=['locked', 'locked', 'mixed', 'workers', 'workers_rebuild']),
+    'C09': dict(target='Properties_C09', clauses=['C09'], profiles=['locked', 'locked', 'mixed', 'workers', 'workers_rebuild', 'special']),
     'C10': dict(target='Properties_C10', clauses=['C10'], profiles=['resize', 'resize', 'mixed', 'grow', 'workers_rebuild', 'special']),
     'C17': dict(target='Properties_C17', clauses=['C17'], profiles=['churn', 'grow', 'mixed']),
     'C08': dict(target='Properties_C08', clauses=['HARNESS', 'CRASH', 'LEAK'], profiles=['churn', 'grow', 'resize', 'special', 'locked'], kinds=[1]),
@@ -392,6 +392,12 @@ def check_T1(pid, tier, seed):
         ncases *= 3     # failing-input search: more volume
     findings = load_findings()
     res, ncorpus, cases = t1_run(pid, tier, seed, cfgs, ncases, spec['profiles'])
+    if pid in ('C11', 'C08'):
+        # "all allocator propagation policies": the same special-member scripts on a build whose allocator does not
+        # propagate on assignment (judged by the acceptor and the allocation / lifetime tracking, not slot by slot)
+        npcfgs = [t1.mkcfg(2, 1, 0, 1, noprop=1), t1.mkcfg(4, 2, 1, 1, noprop=1), t1.mkcfg(3, 1, 1, 0, noprop=1)]
+        res2, _, _ = t1_run(pid, tier, seed + 41, npcfgs, 60 if tier == 'quick' else 1500, ['special'])
+        res = res + res2
     # C16 / C17 quantify over "states where displacement happens before the duplicate is found": in this
     # library that needs a second thread inserting the same key while the first one displaces, so these two
     # checks also run the single-preemption sweeps of racing same-key insertions on the T2 harness
@@ -612,7 +618,15 @@ def check_C14(tier, seed):
         cases.append((bins[lb], sc, 'capi_l%d' % lb))
     res = t1.run_cases(cases, os.path.join(BUILD, 'cases_' + pid))
     mism = [r for r in res if r['status'] in ('mismatch', 'model_error', 'judge_error')]
-    viol = [r for r in res if r['status'] in ('impl_crash', 'harness_error') or
+    def contents_differ(r):
+        # the set of stored pairs right after the operation differs from the model's, whose operations provably act on
+        # the abstract map as the C++ ones do (LockedRefine.v, LazyRefine.v): a wrong element erased / kept / stored
+        d = r.get('detail') or {}
+        if r['status'] != 'mismatch' or not str(d.get('impl', '')).startswith(' C') or not str(d.get('model', '')).startswith(' C'):
+            return False
+        prs = lambda x: sorted(re.findall(r':(\d+=-?\d+)/', x))
+        return prs(d['impl']) != prs(d['model'])
+    viol = [r for r in res if r['status'] in ('impl_crash', 'harness_error') or contents_differ(r) or
             any(b.split()[2] in ('C14', 'C02', 'C05', 'C09', 'C17', 'C10') for b in r.get('blames', []))]
     violations = 0
     lay_fails, lay_n = capi_layout_check()
@@ -858,7 +872,7 @@ def check_T2(pid, tier, seed):
     if pid == 'C06':
         for i in range(6 if tier == 'quick' else 90):
             c = cfgs[i % len(cfgs)]
-            for sc in gen_conc.gen_sweep_section(rng.getrandbits(48), c[0], c[1]):
+            for sc in gen_conc.gen_sweep_section(rng.getrandbits(48), c[0], c[1], pending=(i % 3 == 0)):
                 jobs.append((bins[c], sc, 'secsweep_s%d_l%d' % c, keep, False)); nsw += 1
     # two-preemption sweeps over a constructed layout (check-then-act windows in the displacement code)
     if pid in ('C01', 'C03', 'C04'):
@@ -883,6 +897,13 @@ def check_T2(pid, tier, seed):
     # C06 "on creation the locked_table exposes every stored element (pending deferred migration is finished
     # first) ... hands it back intact": sequential locked-section scripts (with and without helper threads)
     # against the model and the acceptor
+    # C04 "every call completes ... only an active locked_table keeps the table locked": sequential scripts over the
+    # element-type configurations the scheduler harness does not have (not nothrow-movable: growth inside a locked
+    # section goes through the rebuild path) - a call that never returns shows as a run stopped after 60 s
+    seq4_res = []
+    if pid == 'C04':
+        s4cfgs = [t1.mkcfg(3, 1, 1, 0), t1.mkcfg(2, 2, 1, 1), t1.mkcfg(4, 1, 1, 0)]
+        seq4_res, _, _ = t1_run(pid, tier, seed + 23, s4cfgs, 45 if tier == 'quick' else 900, ['locked', 'grow', 'locked'])
     seq_res = []
     if pid == 'C06':
         scfgs = [c for c in (t1.QUICK_CFGS if tier == 'quick' else t1.THOROUGH_CFGS)]
@@ -918,6 +939,10 @@ def check_T2(pid, tier, seed):
                 else: viol.append((r, tag, text))
         if not r.get('replayed', True): unreplayed.append(r)
         if r.get('confirmed') is False: unconfirmed.append(r)
+    for r in seq4_res:
+        if r['status'] == 'impl_crash' and 'timeout' in str(r.get('detail')):
+            r2 = dict(r); r2['problems'] = [('C04', 'sequential script: an operation did not return (the run was stopped after 60 s): a call that spins on a lock its own thread holds, or loops forever')]
+            viol.append((r2, 'C04', r2['problems'][0][1]))
     for r in seq_res:
         kinds = blame_kinds(r)
         if kinds & {'C02', 'C09', 'C05', 'CRASH'}:
@@ -984,6 +1009,25 @@ def main():
     os.makedirs(BUILD, exist_ok=True)
     if a.replay:
         sys.exit(replay(a.pid, a.replay))
+    try:
+        dispatch(a, seed)
+    except SystemExit:
+        raise
+    except Exception as ex:
+        # the machinery itself could not run against /repo's tree (typically: a harness no longer compiles, e.g. a
+        # lookup through a key-like type that is not convertible to key_type): the tie is broken
+        import traceback
+        msg = ''.join(traceback.format_exception_only(type(ex), ex))[-3000:]
+        hetero = a.pid == 'C16' and 'HKey' in msg
+        path = save_replay(a.pid, '# no script: the check could not be run against the current tree\n', ('a lookup / update / erasure through a key-like type that hashes and compares like key_type but is not convertible to it (HKey in harness/seq.cc) no longer compiles: that call would construct a key_type. ' if hetero else '') + 'the harness / model could not be built or run against /repo: ' + msg)
+        log('VIOLATION property=%s replay=%s%s' % (a.pid, path, '' if hetero else ' no-failing-input-found'))
+        try:
+            write_evidence(a.pid, a.tier, seed, dict(obligations=1, discharged=0, checker_cmd='-', trusted_base=TRUSTED_BASE, error=msg[-800:], evaluations=0), 0.0, 1, TRUSTED_BASE)
+        except Exception:
+            pass
+        sys.exit(1)
+
+def dispatch(a, seed):
     if a.pid == 'C13':
         sys.exit(check_C13(a.tier, seed))
     if a.pid in T1_PROPS:
